@@ -1,4 +1,5 @@
 """C03  Equation of motion and time-step update of the output element."""
+import copy
 import itertools
 
 from gmc import menu, sim, traj, si
@@ -58,7 +59,7 @@ def deviations(n, alts, bound):
 ENV = [(d, l) for d in DUTIES for l in LOADS]      # index 0 = (1, 0.3): the default answer
 
 
-def check_case(acc, chain_l, locking, env_seq, split=None, units=None, init=None, dt2=1.0, frac=None):
+def check_case(acc, chain_l, locking, env_seq, split=None, units=None, init=None, dt2=1.0, frac=None, stopped=False):
     """env_seq: list of indices into ENV, one per instant."""
     chain_l = [tuple(x) for x in chain_l]
     spec = menu.assign(chain_l, motor=menu.MOTOR_CUR, locking=locking,
@@ -83,12 +84,28 @@ def check_case(acc, chain_l, locking, env_seq, split=None, units=None, init=None
     spec['load'] = ['script', [ENV[i][1] * stall for i in env_seq]]
     n = len(env_seq)
     case = {'kind': 'case', 'chain': chain_l, 'locking': locking, 'env': list(env_seq), 'split': split,
-            'units': units, 'dt2': dt2, 'frac': frac}
+            'units': units, 'dt2': dt2, 'frac': frac, 'stopped': stopped}
     if split:
         # the continuation may use another (physical) time step
         dtb = [dt[0] * dt2, dt[1]]
         ops = [('run', dt, [dt[0] * (split - 1), dt[1]], duty, None),
                ('run', dtb, [dtb[0] * (n - split), dtb[1]], duty, None)]
+    elif stopped:
+        # a run ended early by a stop condition (motor speed crossing the value between instants 3 and 4 of the unstopped
+        # run), then continued to the end of the script: the update rule also holds across the hand-over
+        base, binfo = sim.run_schedule(copy.deepcopy(spec), [('run', dt, [dt[0] * (n - 1), dt[1]], duty, None)])
+        if binfo['error']:
+            return
+        w = base.series(0, 'angular speed')
+        if len(w) < 6 or w[3] == w[4]:
+            return
+        thr = [(w[3] + w[4]) / 2.0, 'rad/s']
+        op = '>=' if w[4] > w[3] else '<='
+        first = next((k for k in range(1, len(w)) if (w[k] >= thr[0] if op == '>=' else w[k] <= thr[0])), None)
+        if first is None or first >= n - 2:
+            return
+        ops = [('run', dt, [dt[0] * (n - 1), dt[1]], duty, ['tachometer', 0, op, thr]),
+               ('run', dt, [dt[0] * (n - 1 - first), dt[1]], duty, None)]
     elif frac is not None:
         # the requested duration is not a multiple of the step: round(T/dt) steps are taken, each of them a full dt
         ops = [('run', dt, [dt[0] * (n - 2 + frac), dt[1]], duty, None)]
@@ -171,6 +188,8 @@ def run_shard(shard, tier):
                 check_case(acc, chain_l, locking, mixed, units={'w': u})
             for fr in (0.6, 0.4, 0.5000001):
                 check_case(acc, chain_l, locking, mixed, frac=fr)
+            check_case(acc, chain_l, locking, mixed, stopped=True)
+            check_case(acc, chain_l, locking, (0, 0, 0, 0, 0, 0, 0, 0), stopped=True)
             for sc in (1e-9, 1e6):
                 check_case(acc, chain_l, locking, mixed, units={'scale': sc})
                 check_case(acc, chain_l, locking, mixed, units={'scale': sc}, split=4)
@@ -183,6 +202,6 @@ def run_shard(shard, tier):
 def replay(case):
     acc = Acc()
     if case.get('kind') == 'case':
-        check_case(acc, case['chain'], case['locking'], tuple(case['env']), case.get('split'), case.get('units'), dt2=case.get('dt2', 1.0), frac=case.get('frac'))
+        check_case(acc, case['chain'], case['locking'], tuple(case['env']), case.get('split'), case.get('units'), dt2=case.get('dt2', 1.0), frac=case.get('frac'), stopped=case.get('stopped', False))
         return acc.violations
     return run_shard(case['shard'], 'quick').violations
